@@ -858,6 +858,10 @@ class Exec:
                     if isinstance(v, Seq):
                         self.oblige(st, self.cmp_eq(v.n, base.n), "broadcast-shape", target)
                         return Seq(base.n, v._at, base.kind)
+                    if isinstance(v, Opaque) and v.kind == "nan":
+                        # NaN fill: the values are "not a number" — modelled as unspecified reals that
+                        # must be overwritten before use (nothing can be proved about them)
+                        return fresh_seq("real", "nanfill", (), None, base.kind, n=base.n)
                     return Seq(base.n, lambda i, v=v: v, base.kind)
                 raise EngineError("%s:L%d: slice assignment outside the subset" % (self.fnname, target.lineno))
             idx = self.eval(sl, st)
@@ -1462,6 +1466,12 @@ class Exec:
             head = dotted.split(".")[0]
             if head not in st.locals:
                 g = self.ctx.resolve_dotted(self.module, dotted)
+                if isinstance(g, Builtin) and g.name in ("np_missing_attr", "np_nan"):
+                    attr = dotted.split(".")[-1]
+                    if not hasattr(self.ctx._numpy, attr):
+                        self.oblige(st, False, "attribute-defined", node, "numpy %s has no attribute %s" % (self.ctx.numpy_version, attr))
+                        st.assume(False)
+                    return Opaque("nan")
                 if g is not None:
                     return g
         obj = self.eval(node.value, st)
@@ -1616,9 +1626,38 @@ class Exec:
                 body(j, True)
             finally:
                 st.pc = saved_pc
-        mapped = Seq(src.n, lambda i: body(i, False)[1], kind)
+        # Template: evaluate the element once at a bound index; when it is a scalar (or a tuple of
+        # scalars) every element is that term with the index substituted, so calls inside the element
+        # yield one function of the index (with the callee's postcondition for all indices)
+        jb = bvar("ci")
+        self.binders += 1
+        self.bound_stack.append(jb)
+        try:
+            tconds, tv = body(jb, False)
+        finally:
+            self.binders -= 1
+            self.bound_stack.pop()
+
+        def substitutable(v):
+            if isinstance(v, tuple):
+                return all(substitutable(x) for x in v)
+            return is_scalar(v) or v is None or isinstance(v, str)
+
+        def subst(v, i):
+            if isinstance(v, tuple):
+                return tuple(subst(x, i) for x in v)
+            if is_z3(v):
+                return z3.substitute(v, (jb, to_z3(as_int(i))))
+            return v
+
+        if substitutable(tv) and all(substitutable(c) for c in tconds):
+            mapped = Seq(src.n, lambda i: subst(tv, i), kind)
+            keep = lambda i: zand(*[subst(c, i) for c in tconds])
+        else:
+            mapped = Seq(src.n, lambda i: body(i, False)[1], kind)
+            keep = lambda i: zand(*body(i, False)[0])
         if g.ifs:
-            out, _, _ = self.seq_filter(mapped, lambda i: zand(*body(i, False)[0]), st)
+            out, _, _ = self.seq_filter(mapped, keep, st)
             return out
         return mapped
 
